@@ -150,7 +150,11 @@ impl Decoder for RawMapOperationDecoder {
                         problem: Text::from(format!("{}{}", BAD_RECORD_SIZE, total_len)),
                     }));
                 }
-                let required = LEN_SIZE + total_len;
+                let required = LEN_SIZE.checked_add(total_len).ok_or_else(|| {
+                    FrameIoError::BadFrame(InvalidFrame::InvalidHeader {
+                        problem: Text::from(format!("{}{}", BAD_RECORD_SIZE, total_len)),
+                    })
+                })?;
                 if src.remaining() < required {
                     return Ok(None);
                 }
@@ -159,7 +163,11 @@ impl Decoder for RawMapOperationDecoder {
                 frame.advance(TAG_SIZE);
                 let key_len = frame.get_u64() as usize;
 
-                if key_len + LEN_SIZE + TAG_SIZE > total_len {
+                if key_len
+                    .checked_add(LEN_SIZE + TAG_SIZE)
+                    .map(|n| n > total_len)
+                    .unwrap_or(true)
+                {
                     return Err(FrameIoError::BadFrame(InvalidFrame::InvalidHeader {
                         problem: Text::from(format!("{}{}", BAD_KEY_SIZE, key_len)),
                     }));
@@ -175,7 +183,11 @@ impl Decoder for RawMapOperationDecoder {
                         problem: Text::from(format!("{}{}", BAD_RECORD_SIZE, total_len)),
                     }));
                 }
-                let required = LEN_SIZE + total_len;
+                let required = LEN_SIZE.checked_add(total_len).ok_or_else(|| {
+                    FrameIoError::BadFrame(InvalidFrame::InvalidHeader {
+                        problem: Text::from(format!("{}{}", BAD_RECORD_SIZE, total_len)),
+                    })
+                })?;
                 if src.remaining() < required {
                     return Ok(None);
                 }
@@ -231,8 +243,9 @@ impl<K: RecognizerReadable, V: RecognizerReadable> Decoder for MapOperationDecod
                                 break Ok(None);
                             }
                             let key_len = header.get_u64() as usize;
-                            let value_len = if let Some(l) =
-                                total_len.checked_sub(key_len + LEN_SIZE + TAG_SIZE)
+                            let value_len = if let Some(l) = key_len
+                                .checked_add(LEN_SIZE + TAG_SIZE)
+                                .and_then(|n| total_len.checked_sub(n))
                             {
                                 l
                             } else {
